@@ -363,14 +363,146 @@ impl Driver {
     }
 }
 
+/// Two submissions overlap.  Submission L is started and stopped at one of the two gates between
+/// the steps of a submission (after the pre-check under the read lock / before `submit_entry` takes
+/// the write lock); meanwhile submission W is carried out completely; then L continues.  Every
+/// ordered pair (L, W) of the universe's transactions, after every prefix out of {empty pool, one
+/// pooled transaction, the universe's designed prefix}, both gates, RBF off and on.  Whatever the
+/// two submissions are answered, the pool's bookkeeping must be consistent afterwards (the same
+/// recomputation as after every sequential operation).
+fn race_family(ctx: &Ctx, cons: &Consensus, report: &mut Report, only: Option<&Value>) -> Result<(), String> {
+    let mut unit = 0u64;
+    for variant in [1u8, 2, 0] {
+        for rbf in [false, true] {
+            let u0 = PoolUniverse::new(cons, variant);
+            let n = u0.names.len();
+            let mut prefixes: Vec<Vec<usize>> = vec![vec![]];
+            prefixes.extend((0..n).map(|i| vec![i]));
+            if variant == 2 {
+                prefixes.push(["P1", "P2", "Dd", "Q"].iter().map(|x| DEPEVICT.iter().position(|y| y == x).unwrap()).collect());
+            }
+            if variant == 1 {
+                prefixes.push(vec![0, 1]);
+                prefixes.push(vec![0, 1, 2]);
+            }
+            let mut slot: Option<Driver> = None;
+            for prefix in &prefixes {
+                for l in 0..n {
+                    for w in 0..n {
+                        if l == w || prefix.contains(&l) || prefix.contains(&w) {
+                            continue;
+                        }
+                        for gate in ["process_tx:after-pre-check", "process_tx:before-submit-entry"] {
+                            unit += 1;
+                            if let Some(v) = only {
+                                if v["universe"].as_u64() != Some(variant as u64) || v["rbf"].as_bool() != Some(rbf) || v["prefix"] != json!(prefix) || v["stopped"].as_u64() != Some(l as u64) || v["overtaking"].as_u64() != Some(w as u64) || v["gate"].as_str() != Some(gate) {
+                                    continue;
+                                }
+                            } else if !ctx.mine(unit) {
+                                continue;
+                            }
+                            if ctx.out_of_time() {
+                                report.cap_hit = Some(format!("wall budget reached in the submission-race family (universe {variant}, rbf={rbf})"));
+                                if let Some(d) = slot.take() {
+                                    d.node.destroy();
+                                }
+                                return Ok(());
+                            }
+                            if slot.as_ref().map(|d| d.resets >= 400).unwrap_or(false) {
+                                if let Some(d) = slot.take() {
+                                    d.node.destroy();
+                                }
+                            }
+                            if slot.is_none() {
+                                let k = BOOTS.fetch_add(1, std::sync::atomic::Ordering::SeqCst);
+                                slot = Some(Driver::boot(&ctx.scratch.join(format!("pool-race-node-{k}")), cons, rbf, variant)?);
+                            }
+                            let drv = slot.as_mut().unwrap();
+                            drv.reset()?;
+                            for i in prefix {
+                                drv.apply(Op::Submit(*i))?;
+                            }
+                            let label = json!({"family": "submission-race", "universe": variant, "rbf": rbf, "prefix": prefix, "stopped": l, "overtaking": w, "gate": gate});
+                            let (reached_tx, reached_rx) = std::sync::mpsc::channel::<()>();
+                            let (go_tx, go_rx) = std::sync::mpsc::channel::<()>();
+                            let fired = std::sync::Arc::new(std::sync::atomic::AtomicBool::new(false));
+                            let fired2 = std::sync::Arc::clone(&fired);
+                            let go_rx = std::sync::Mutex::new(go_rx);
+                            let wanted = gate.to_string();
+                            ckb_tx_pool::verif::set_gate(Some(Box::new(move |point| {
+                                if point == wanted && !fired2.swap(true, std::sync::atomic::Ordering::SeqCst) {
+                                    let _ = reached_tx.send(());
+                                    let _ = go_rx.lock().unwrap().recv_timeout(std::time::Duration::from_secs(30));
+                                }
+                            })));
+                            let ctrl = drv.node.shared.tx_pool_controller().clone();
+                            let tx = drv.u.txs[drv.u.names[l]].clone();
+                            let handle = std::thread::spawn(move || ctrl.submit_local_tx(tx).map_err(|e| e.to_string()));
+                            // the gate is reached, or the submission is answered before it (refused by the pre-check)
+                            let t0 = std::time::Instant::now();
+                            let mut reached = false;
+                            loop {
+                                if reached_rx.try_recv().is_ok() {
+                                    reached = true;
+                                    break;
+                                }
+                                if handle.is_finished() {
+                                    break;
+                                }
+                                if t0.elapsed() > std::time::Duration::from_secs(20) {
+                                    ckb_tx_pool::verif::set_gate(None);
+                                    return Err(format!("submission of {} neither reached {gate} nor was answered", drv.u.names[l]));
+                                }
+                                std::thread::sleep(std::time::Duration::from_micros(100));
+                            }
+                            let mut obs_w = String::from("-");
+                            if reached {
+                                obs_w = drv.apply(Op::Submit(w))?;
+                                let _ = go_tx.send(());
+                            }
+                            let verdict = handle.join().map_err(|_| "submit thread panicked".to_string())??;
+                            ckb_tx_pool::verif::set_gate(None);
+                            report.transitions += 2;
+                            if !reached {
+                                report.count("race_gate_not_reached", 1);
+                                continue;
+                            }
+                            report.count("race_gate_reached", 1);
+                            let obs_l = match &verdict { Ok(_) => "accepted".to_string(), Err(e) => format!("rejected: {}", e.to_string().split('(').next().unwrap_or("").trim()) };
+                            let d = drv.dump()?;
+                            let trace = format!("universe {variant}, rbf={rbf}: pool holds {:?}; submission of {} stopped at {gate}; {} submitted meanwhile ({obs_w}); {} continues ({obs_l})", prefix.iter().map(|i| drv.u.names[*i]).collect::<Vec<_>>(), drv.u.names[l], drv.u.names[w], drv.u.names[l]);
+                            for (kind, msg) in judge(&d, &drv.u, drv.u.max_ancestors()) {
+                                report.violation(format!("race/bookkeeping/{kind}"), format!("{trace}: {msg}"), label.clone());
+                            }
+                            report.evaluations += 1;
+                            report.traces += 1;
+                            let c = canon(&d, &drv.u, 0);
+                            let f = fp(&("race", rbf, variant, &c.1, obs_l.starts_with("accepted"), obs_w.starts_with("accepted")));
+                            report.states.insert(f);
+                            report.outcomes.insert(fp(&("race", obs_l.starts_with("accepted"), obs_w.starts_with("accepted"), c.1.len())));
+                            if d.entries.len() >= 2 {
+                                report.nontrivial.insert(f);
+                            }
+                        }
+                    }
+                }
+            }
+            if let Some(d) = slot.take() {
+                d.node.destroy();
+            }
+        }
+    }
+    Ok(())
+}
+
 static BOOTS: std::sync::atomic::AtomicU64 = std::sync::atomic::AtomicU64::new(0);
 
 pub fn meta(tier: Tier) -> Meta {
     Meta {
         id: "C11",
         level: "model_checking",
-        rule: "state = operation history (replayed on a real node that is reset to genesis tip + empty pool by truncate + clear_pool between histories, rebooted every 400 histories) over {Submit(t), Remove(t) for the designed transactions of the universe (0: chain of four against ancestor limit 3, a join of two unrelated parents, a sufficient and an insufficient replacement, a dep user and the dep cell spender; 1: diamond A1->{B,C}->D with tail F against ancestor limit 4, sibling E, replacement of the root, replacement of one arm), Mine, Expire(+2h)} replayed on a fresh real node + tx-pool service (ancestor limit 3, pool size limit ~5 txs, expiry 1h; RBF on and off); BFS by depth, states merged only when (tip, sorted entries with status and recorded parents, conflict-cache ids) agree; after EVERY operation the hook dump is judged: no double spend, input/dep edge maps = inputs/deps of the pooled txs, link key set = entries, parents justified by a spend/dep relation and containing every spend/dep of a pooled output, children = transpose, ancestor/descendant (count,size,cycles,fee) = recomputation over the link closure, per-status counts and totals, ancestor limit, and the RBF rule on every successful replacement (replaced + descendants gone, fee >= their fees + min_rbf_rate*size; a rejected one leaves the pool unchanged). non-trivial = state with >= 2 linked entries or reached through Mine/Expire/replacement.",
-        assumptions: &["reorganisations onto a competing branch are C12's subject and not in this alphabet", "the pool's public RPC views are not compared here (the hook dump is the observed state)"],
+        rule: "state = operation history (replayed on a real node that is reset to genesis tip + empty pool by truncate + clear_pool between histories, rebooted every 400 histories) over {Submit(t), Remove(t) for the designed transactions of the universe (0: chain of four against ancestor limit 3, a join of two unrelated parents, a sufficient and an insufficient replacement, a dep user and the dep cell spender; 1: diamond A1->{B,C}->D with tail F against ancestor limit 4, sibling E, replacement of the root, replacement of one arm), Mine, Expire(+2h)} replayed on a fresh real node + tx-pool service (ancestor limit 3, pool size limit ~5 txs, expiry 1h; RBF on and off); BFS by depth, states merged only when (tip, sorted entries with status and recorded parents, conflict-cache ids) agree; after EVERY operation the hook dump is judged: no double spend, input/dep edge maps = inputs/deps of the pooled txs, link key set = entries, parents justified by a spend/dep relation and containing every spend/dep of a pooled output, children = transpose, ancestor/descendant (count,size,cycles,fee) = recomputation over the link closure, per-status counts and totals, ancestor limit, and the RBF rule on every successful replacement (replaced + descendants gone, fee >= their fees + min_rbf_rate*size; a rejected one leaves the pool unchanged). non-trivial = state with >= 2 linked entries or reached through Mine/Expire/replacement. Submission-race family: for every universe, RBF off and on, every prefix out of {empty pool, one pooled transaction, the universe's designed prefix}, every ordered pair (L, W) of further transactions and both gates between the steps of a submission (after the pre-check, before submit_entry): L is stopped at the gate, W is submitted and answered, L continues; the same bookkeeping recomputation judges the pool afterwards.",
+        assumptions: &["overlapping submissions are enumerated at the two gates between the steps of a submission (submission-race family: every ordered pair of transactions, one stopped at a gate while the other is carried out); other interleavings inside the pool service are not", "reorganisations onto a competing branch are C12's subject and not in this alphabet", "the pool's public RPC views are not compared here (the hook dump is the observed state)"],
         bounds: json!({"configs_universe_rbf_depth": if tier.is_thorough() { json!([[0, true, 6], [1, true, 6], [0, false, 6], [1, false, 5], [2, true, "P1 P2 Dd Q + 4"], [2, false, "P1 P2 Dd Q + 3"], [2, true, 5]]) } else { json!([[0, true, 5], [1, true, 4], [0, false, 4], [2, true, "P1 P2 Dd Q + 2"]]) }, "split": "(config, op1, op2) round-robin over 16 workers, level-synchronous BFS with a per-worker seen set", "universe_0": NAMES, "universe_1_diamond": DIAMOND, "universe_2_dep_evict": DEPEVICT}),
     }
 }
@@ -483,6 +615,14 @@ pub fn run(ctx: &Ctx) -> Report {
     let cons = consensus(&WorldOpts::default());
     if let Some(path) = &ctx.replay {
         let v: Value = load_replay_case(path);
+        if v["family"] == "submission-race" {
+            if let Err(e) = race_family(ctx, &cons, &mut report, Some(&v)) {
+                report.machinery_errors.push(e);
+            }
+            report.outcomes.insert(0);
+            report.outcomes.insert(1);
+            return report;
+        }
         let hist: Vec<Op> = serde_json::from_value(v["history"].clone()).expect("history");
         let rbf = v["rbf"].as_bool().unwrap_or(true);
         let variant = v["universe"].as_u64().unwrap_or(0) as u8;
@@ -492,6 +632,11 @@ pub fn run(ctx: &Ctx) -> Report {
         }
         report.outcomes.insert(0);
         report.outcomes.insert(1);
+        return report;
+    }
+    // overlapping submissions first (a few seconds)
+    if let Err(e) = race_family(ctx, &cons, &mut report, None) {
+        report.machinery_errors.push(format!("submission-race family: {e}"));
         return report;
     }
     // (universe, rbf, depth, prefix): the search starts after `prefix` (empty = from the empty pool)
